@@ -23,6 +23,7 @@ ASSUMPTIONS = [
     'degenerate case compared with rtol 1e-9, plus the licensed e^-10 relative slack for emission (the cross-section path clamps saturated transmittances, the k path does not)',
     'general case: Jensen bound judged on transmission models; the cross-section run uses the weight-averaged coefficient table (interpolation is linear in the coefficients in linear mode)',
 ]
+RULE = RULE + ' ' + 'Also: the same k-mode model evaluated on two windows of equal length in sequence; the per-layer terms of the emission families in k-mode.'
 REQUIRED = {'zero-weight-point': 0.15, 'requadrature': 0.08, 'grids:same-ends-other-spacing': 0.15, 'family:transmission': 0.2, 'family:emission': 0.2, 'degenerate': 0.3, 'general': 0.2, 'profile:noniso': 0.3}
 
 
